@@ -56,10 +56,16 @@ def cleanup_scratch() -> None:
 
 def new_dir(tag: str = "") -> str:
     """A fresh unique directory. Safe to call in forked children (pid is part of the name)."""
-    _state["counter"] += 1
-    d = os.path.join(scratch_base(), "p", "%s%d-%d" % (tag, os.getpid(), _state["counter"]))
-    os.makedirs(d)
-    return d
+    parent = os.path.join(scratch_base(), "p")
+    os.makedirs(parent, exist_ok=True)
+    while True:  # pids are reused over a long run (thorough tiers fork >32k children): never trust pid+counter alone
+        _state["counter"] += 1
+        d = os.path.join(parent, "%s%d-%d" % (tag, os.getpid(), _state["counter"]))
+        try:
+            os.mkdir(d)
+            return d
+        except FileExistsError:
+            continue
 
 
 def write_tree(root: str, files: dict, git_marker: bool = True) -> None:
@@ -199,7 +205,7 @@ def cli(argv, cwd, env=None, timeout=120.0, stdin_devnull=True) -> Result:
     """B-CLI/zygote: run `thailint <argv>` in a forked child of the warm process."""
     warm()
     argv = [str(a) for a in argv]
-    faillog = os.path.join(scratch_base(), "tmp", "fl-%d-%d" % (os.getpid(), _next()))
+    faillog = _fresh_log("fl")
     outfd = os.memfd_create("out")
     errfd = os.memfd_create("err")
     monfd = os.memfd_create("mon")
@@ -308,11 +314,19 @@ def _next() -> int:
     return _state["counter"]
 
 
+def _fresh_log(prefix: str) -> str:
+    """A failure-log path that does not exist yet (pids are reused across a long run; a stale log would be a false alarm)."""
+    while True:
+        p = os.path.join(scratch_base(), "tmp", "%s-%d-%d" % (prefix, os.getpid(), _next()))
+        if not os.path.lexists(p):
+            return p
+
+
 def cli_real(argv, cwd, env=None, timeout=180.0, python_opts=None) -> Result:
     """B-CLI/real: the installed console script in a fresh interpreter."""
     argv = [str(a) for a in argv]
     e = base_env()
-    faillog = os.path.join(scratch_base(), "tmp", "flr-%d-%d" % (os.getpid(), _next()))
+    faillog = _fresh_log("flr")
     e["THAILINT_VERIF_FAILLOG"] = faillog
     if env:
         for k, v in env.items():
